@@ -63,6 +63,22 @@ def _check(ctx, lens):
             ctx.violate(f"collection[{i}] is not item {i} of the concatenation for member lengths {list(lens)} (got {impl_items[i]})",
                         dict(case, index=i, got=impl_items[i]))
             break
+    else:
+        # the same collection object read again in other orders (descending, random, with repeats): an answer must not depend on
+        # which index was read before (anything __getitem__ remembers between calls)
+        orders = [list(range(n - 1, -1, -1))]
+        if n > 1:
+            orders.append([ctx.rng.randrange(n) for _ in range(min(3 * n, 40))])
+        for order in orders:
+            prev = None
+            for i in order:
+                try: got = ids.get(id(coll[i]), -1)
+                except IndexError: got = None
+                if got != i:
+                    ctx.violate(f"collection[{i}] read after collection[{prev}] is not item {i} of the concatenation for member lengths {list(lens)} (got {got})",
+                                dict(case, index=i, previous_index=prev, got=got, order=order))
+                    return case, impl, members
+                prev = i
     return case, impl, members
 
 
@@ -126,4 +142,13 @@ def search(ctx):
 
 def replay(ctx, rp):
     case = rp.get("case", rp)
+    if "order" in case:
+        coll, members = _build(tuple(case["lens"]))
+        flat = [m for d in members for m in d.mazes]
+        prev = None
+        for i in list(range(len(flat))) + case["order"]:
+            if coll[i] is not flat[i]:
+                ctx.violate(f"replay: collection[{i}] read after collection[{prev}] is not item {i}", case); return
+            prev = i
+        return
     _check(ctx, tuple(case["lens"]))
